@@ -3,11 +3,12 @@
 # (/root/work/dev + /root/work/repo-dev; no test-suite run): applies seeded/<id>/patch.diff, runs the quick check of its property,
 # reverts.  Prints one line per seed: caught with a failing input / caught without / MISSED / patch does not apply.
 PAT=${1:-.}
-R=/root/work/repo-dev; V=/root/work/dev
+R=${R:-/root/work/repo-dev}; V=${V:-/root/work/dev}; SHARD=${SHARD:-0}; NSHARD=${NSHARD:-1}; n=0
 for d in /verif/seeded/*/; do
   id=$(basename $d)
   echo "$id" | grep -q "$PAT" || continue
   [ -f $d/patch.diff ] || continue
+  n=$((n+1)); [ $((n % NSHARD)) -eq $SHARD ] || continue
   P=$(echo $id | cut -c1-3)
   git -C $R checkout -q -- .
   if ! git -C $R apply $d/patch.diff 2>/dev/null; then echo "$id: patch does not apply to the current tree"; continue; fi
